@@ -23,8 +23,12 @@ PARAM_KEYS = ['x', 'y', 'z', 'lr', 'path', 'opt']
 
 # quote-free text, sometimes with placeholders (defined: DATA, CFGDIR when global_vars are given; UNDEF never)
 TEXT_PH = st.one_of(values.TEXT_SMALL, values.TEXT_SMALL, values.TEXT_SMALL,
-                    st.sampled_from(['{DATA}/f', 'pre_{DATA}', '{UNDEF}/u', '{CFGDIR}/q', '{DATA}{DATA}']))
+                    st.sampled_from(['{DATA}/f', 'pre_{DATA}', '{UNDEF}/u', '{DATA}{DATA}']))
 param_values = values.json_values(text=TEXT_PH, keys=values.TEXT_SMALL, max_leaves=5)
+# with {CFGDIR}: its value differs between the two configurations of a C02 pair (never used inside one history,
+# where global_vars must stay constant)
+param_values_cfgdir = values.json_values(text=st.one_of(TEXT_PH, st.just('{CFGDIR}/q')), keys=values.TEXT_SMALL,
+                                         max_leaves=5)
 # strings with quotes, separators of the key text and escapes (C12: representation must stay the 1.4.0 one)
 TEXT_KEYISH = st.one_of(values.TEXT_SMALL, st.sampled_from(["'", '"', "a'b", '###', '$$$', 'x=1', "', '", '\\', 'é', ' ', '[]',
                                                             '{A}', "it's", 'a###b=c', '\n']),
@@ -135,6 +139,8 @@ def programs(draw, max_modules=3, max_tasks=4, kinds=KINDS_BASIC, patterns=True,
                 pnames = [p['name'] for p in t['params']]
                 ok = len(set(shorts)) == len(shorts) and not (set(shorts) & set(pnames))
                 t['style'] = draw(st.sampled_from(['args', 'args', 'index'])) if ok else 'index'
+                if t['style'] == 'args' and len(pnames) + len(shorts) >= 2 and draw(st.booleans()):
+                    t['sig_perm'] = list(draw(st.permutations(list(range(len(pnames) + len(shorts))))))
             mod['tasks'].append(t)
             all_tasks.append((mi, len(mod['tasks']) - 1))
         if not mod['tasks']:
